@@ -564,9 +564,10 @@ func (t *trenameat) handle(cs *connState) message {
 			return linux.EINVAL
 		}
 
-		// Is this the same file? If yes, short-circuit and return success.
+		// Is this the same file? If yes, the path tree needs no update,
+		// but the result (e.g. ENOENT) is still the file's to give.
 		if ref.pathNode == refTarget.pathNode && t.OldName == t.NewName {
-			return nil
+			return ref.file.RenameAt(t.OldName, refTarget.file, t.NewName)
 		}
 
 		// Attempt the actual rename.
@@ -681,10 +682,11 @@ func (t *trename) handle(cs *connState) message {
 		// check in any case, and the operation is safe. There may be other
 		// files corresponding to the same path that are renamed anyways.
 
-		// Check for the exact same file and short-circuit.
+		// Check for the exact same file: the path tree needs no update,
+		// but the result is still the file's to give.
 		oldName := ref.parent.pathNode.nameFor(ref)
 		if ref.parent.pathNode == refTarget.pathNode && oldName == t.Name {
-			return nil
+			return ref.parent.file.RenameAt(oldName, refTarget.file, t.Name)
 		}
 
 		// Call the rename method on the parent.
